@@ -39,6 +39,7 @@ inductive Mail where
 /-- what `op_call` returned to its caller -/
 inductive Res where
   | ack | frame (f : Frame) | timeout | recvErr | opSendErr | scrubSendErr
+  | decodeErr     -- what arrived under the operation's ID is not an LDAPResult (`try_from_tag` = None): decoding error (F27)
   deriving Repr, DecidableEq
 
 inductive Phase where
@@ -247,7 +248,10 @@ def step (s : St) (e : Ev) : Option (St × Obs) :=
       if o.res.isSome ∨ o.phase = .allocated then none
       else match o.mail with
         | .ack => some ({ s with ops := s.ops.set i { o with res := some .ack } }, .res (some .ack))
-        | .frame f => some ({ s with ops := s.ops.set i { o with res := some (.frame f) } }, .res (some (.frame f)))
+        | .frame f =>
+          -- `LdapResultExt::try_from_tag(response.0)`: the driver hands on whatever the server sent under this ID
+          let r := if f.good then Res.frame f else Res.decodeErr
+          some ({ s with ops := s.ops.set i { o with res := some r } }, .res (some r))
         | .dropped => some ({ s with ops := s.ops.set i { o with res := some .recvErr },
                                       chans := dropRxOf s.chans o.chan }, .res (some .recvErr))
         | .empty =>
